@@ -97,6 +97,7 @@ pub fn check(case: &Case, obs: &mut Obs) -> Result<(), Fail> {
         }
         let ids: Vec<PeerId> = slots.lock().unwrap().iter().map(|s| s.node.id()).collect();
         let tracker = Arc::new(Mutex::new(Tracker::default()));
+        let graveyard: Arc<Mutex<Vec<Node>>> = Arc::new(Mutex::new(Vec::new()));
         // ---- the sampler: every 100 ms of virtual time look at all views
         let skew = case.idle_skew_ms as u64;
         let sample = {
@@ -304,7 +305,7 @@ pub fn check(case: &Case, obs: &mut Obs) -> Result<(), Fail> {
                     addrs.push(fresh.addr());
                     let events = fresh.net.subscribe().ok().map(|(rx, _)| rx);
                     let old = std::mem::replace(&mut sl[i], Slot { node: fresh, alive: true, events, addrs });
-                    Box::leak(Box::new(old.node)); // never closed, never dropped
+                    graveyard.lock().unwrap().push(old.node); // never closed; dropped only when the case is over
                 }
                 Op::Partition { a, b, one_way, ms } => {
                     let (a, b) = (*a % n as u8, *b % n as u8);
